@@ -21,7 +21,13 @@ def gen_ops(rng, d, n, length):
         # re-use earlier points often so that writes are read back
         p = rng.choice(pts) if pts and rng.random() < 0.5 else _point(rng, d, n)
         pts.append(p)
-        if r < 0.28:
+        if d >= 2 and rng.random() < 0.08:
+            # assignment at a partial point: the fiber under another prefix of the same tensor, or one of
+            # the case's stand-alone source fibers (re-used, so that sharing of payload boxes shows)
+            ln = rng.randrange(1, d)
+            src = ({"from": _point(rng, ln, n)} if rng.random() < 0.5 else {"lit": ln})
+            ops.append({"k": "assignp", "p": p[:ln], **src})
+        elif r < 0.28:
             ops.append({"k": "get", "p": p})
         elif r < 0.36:
             ops.append({"k": "getd", "p": p, "v": rng.choice([0, 9, -1])})
@@ -30,9 +36,11 @@ def gen_ops(rng, d, n, length):
         elif r < 0.58:
             ops.append({"k": "ref", "p": p})
         elif r < 0.78:
-            ops.append({"k": "assign", "p": p, "v": rng.choice([0, 1, 2, 7, -3])})
+            ops.append({"k": "assign", "p": p, "v": rng.choice([0, 1, 2, 7, -3]), "held": rng.random() < 0.3})
         elif r < 0.94:
-            ops.append({"k": "iadd", "p": p, "v": rng.choice([1, -1, 2, 0])})
+            # in-place arithmetic through the handle: += or -= (the model sees the signed amount)
+            ops.append({"k": "iadd", "p": p, "v": rng.choice([1, -1, 2, 0]), "held": rng.random() < 0.3,
+                        "how": rng.choice(["iadd", "iadd", "isub"])})
         else:
             ops.append({"k": "posref", "p": p[:1]})
     return ops
@@ -71,7 +79,8 @@ def gen(seed, tier):
         kind = "owned" if d >= 2 or rng.random() < 0.5 else "free"
         length = rng.choice([3, 6, 10]) if tier == "quick" else rng.choice([5, 12, 40])
         yield {"prop": PROP, "op": "points", "d": d, "dflt": dflt, "t": t, "kind": kind,
-               "ops": gen_ops(rng, d, n, length)}
+               "ops": gen_ops(rng, d, n, length),
+               "srcs": {str(ln): H.gen_tree(rng, d - ln, n, (1, 2, -3, 7, 0), dflt) for ln in range(1, d)}}
 
 
 def _ranks(t):
@@ -108,6 +117,15 @@ def run(case):
     acc = tensor if tensor is not None else root
     obs, side = [], {}
     reads_pure, ranks_pure = True, True
+    held = {}       # point -> handle obtained earlier (still the stored payload unless a fiber assignment replaced it)
+    srcs = {int(ln): H.build_fiber(t, d - int(ln), dflt) for ln, t in case.get("srcs", {}).items()}
+
+    def handle(p, use_held):
+        h = held.get(tuple(p)) if use_held else None
+        if h is None:
+            h = acc.getPayloadRef(*p)
+            held[tuple(p)] = h
+        return h
     for op in case["ops"]:
         k, p = op["k"], op["p"]
         before = H.snapshot(root)
@@ -122,13 +140,29 @@ def run(case):
             elif k == "ref":
                 out = H.snapshot(acc.getPayloadRef(*p))
             elif k == "assign":
-                ref = acc.getPayloadRef(*p)
+                ref = handle(p, op.get("held"))
                 ref <<= op["v"]
                 out = H.snapshot(acc.getPayloadRef(*p))
             elif k == "iadd":
-                ref = acc.getPayloadRef(*p)
-                ref += op["v"]
+                ref = handle(p, op.get("held"))
+                if op.get("how") == "isub":
+                    ref -= -op["v"]
+                else:
+                    ref += op["v"]
                 out = H.snapshot(acc.getPayloadRef(*p))
+            elif k == "assignp":
+                src = acc.getPayload(*op["from"]) if "from" in op else srcs[op["lit"]]
+                if "from" in op and op["from"] == p:
+                    src = srcs[len(p)]          # f <<= f is not an assignment from another fiber
+                op["src"] = H.snapshot(src)
+                src_before = op["src"]
+                ref = acc.getPayloadRef(*p)
+                ref <<= src
+                for q in [q for q in held if list(q[:len(p)]) == p]:
+                    del held[q]                 # the boxes under p were replaced
+                out = H.snapshot(acc.getPayload(*p))
+                if H.snapshot(src) != src_before:
+                    side["assignment_source_unchanged"] = False
             elif k == "posref":
                 out = root.getPositionRef(p[0])
             else:
@@ -153,7 +187,7 @@ def nontrivial(case, verdict):
     if case["op"] == "pos":
         return "start_pos" in t or "found" in t
     ks = [o["k"] for o in case["ops"]]
-    wrote = [i for i, k in enumerate(ks) if k in ("assign", "iadd")]
+    wrote = [i for i, k in enumerate(ks) if k in ("assign", "iadd", "assignp")]
     read_after = wrote and any(k in ("get", "getd", "getprefix") for k in ks[wrote[0] + 1:])
     return bool(read_after) or "residue" in t
 
